@@ -121,25 +121,29 @@ def run_engine(case):
             log.add("prepare", ip=self.ip, port=self.port, node=self.node_name)
             return provisioner.NodeConfiguration("tar", None, True, self.ip, self.node_name, f"/r/{self.node_name}", f"/r/{self.node_name}/install", [f"/r/{self.node_name}/data"])
 
+    launcher_seq = [0]
+
     class Launcher:
         def __init__(self, c):
             self.cfg = c
+            launcher_seq[0] += 1
+            self.uid = launcher_seq[0]  # not id(): addresses are reused after garbage collection
 
         def start(self, node_configs):
             ip = node_configs[0].ip if node_configs else None
             names = [nc.node_name for nc in node_configs]
             # a start takes time: modelled as a jump of this process' clock is not possible, so the duration only orders the log
-            log.add("launcher-start", ip=ip, nodes=names, launcher=id(self))
+            log.add("launcher-start", ip=ip, nodes=names, launcher=self.uid)
             port = self.port
             if failing is not None and (ip, port) == failing:
                 if fault is not None:
                     fault["fired_at"] = clock.now
                 raise exceptions.LaunchError(f"sim: cannot start node on {ip}:{port}")
-            log.add("launcher-started", ip=ip, nodes=names, launcher=id(self), port=port)
+            log.add("launcher-started", ip=ip, nodes=names, launcher=self.uid, port=port)
             return [Node(n, ip) for n in names]
 
         def stop(self, nodes, metrics_store):
-            log.add("launcher-stop", nodes=[n.node_name for n in nodes], launcher=id(self))
+            log.add("launcher-stop", nodes=[n.node_name for n in nodes], launcher=self.uid)
 
     def provisioner_local(c, car, plugins, node_ip, node_http_port, all_node_ips, all_node_names, race_root_path, node_name):
         log.add("provisioner-created", ip=node_ip, port=node_http_port, node=node_name, all_ips=sorted(all_node_ips), all_names=sorted(all_node_names))
@@ -161,11 +165,11 @@ def run_engine(case):
         real_flush = metrics_store.flush
 
         def close():
-            log.add("store-close", launcher=id(m.launcher))
+            log.add("store-close", launcher=m.launcher.uid)
             return real_close()
 
         def flush(refresh=True):
-            log.add("store-flush", refresh=refresh, launcher=id(m.launcher))
+            log.add("store-flush", refresh=refresh, launcher=m.launcher.uid)
             return real_flush(refresh=refresh)
 
         metrics_store.close = close
